@@ -138,6 +138,8 @@ def draw_job(rng: random.Random, prop: str, opts) -> dict:
     if not any(f['kind'] in ('exp', 'hdiff') for f in job['filters']):
       job['filters'].insert(0, {'kind': 'exp', 'order': 6, 'cutoff': 0, 'tau': 0.010938})
   job['oro_unclipped'] = rng.random() < 0.5
+  # non-default equation flag (no vertical advection terms)
+  job['vadv'] = rng.random() >= 0.2
   job['layout0'] = {}
   if prop in ('C11', 'C07') and impl != 'real' and rng.random() < 0.4:
     job['layout0'] = {'base': rng.choice([2, 4, 8])}
@@ -209,7 +211,8 @@ def build_equation(job, coords, oro_ref):
          'moist': primitive_equations.MoistPrimitiveEquations,
          'cloud': primitive_equations.MoistPrimitiveEquationsWithCloudMoisture}[job['family']]
   return cls(np.asarray(job['tref']), oro, coords, specs,
-             vertical_matmul_method=job['vmethod'])
+             vertical_matmul_method=job['vmethod'],
+             include_vertical_advection=bool(job.get('vadv', True)))
 
 
 def build_filters(job, grid):
